@@ -12,6 +12,7 @@ TEXT = {
  "C15": ("proof", "Over the reals: xy point-segment distance is <= the distance to every point of the segment and attained at the clamped projection (forall/exists form, incl. zero-length segments); perpendicular distance likewise over the whole line; point-linestring = fold of point-segment minima (loop invariant); 2D segment-segment = 0 exactly when the Cramer parameters lie in [0,1]^2 (a common point, lemma) else the least endpoint-segment distance; 3D point-segment as 2D; 3D segment-segment: stationary point of the Gram form when inside the unit square (global minimum by lemma), else least endpoint-segment distance; every division/sqrt argument proved safe (never NaN).", "5/C15"),
  "C17": ("proof", "Frame obligations (every heap store targets memory allocated inside the call; callees contribute only their proved modifies clauses) for the non-mutating entry points under contract: measures, bounds and predicates, coordinate accessors, Clone, 2D/3D distances, WKB/EWKB decoders and wkbcommon readers, IGC decoder and encoder; plus a whole-repository sweep showing that no library code assigns, increments or takes the address of a package-level variable.", "5/C17"),
  "C19": ("proof", "IGC decoder totality for every byte stream delivered by the (trusted) line scanner: every string index and slice in parseDec/parseB/parseH/parseI/parseLine/doParse is in range under the record-length invariant that parseI maintains; the fix array always holds whole 5-ordinate fixes so Read returns a well-formed Layout(5) LineString; parseDec computes the decimal value of its columns; two-digit years map into 1970-2069 with the same last two digits; every numeric field the encoder can emit (degrees up to the pole/antimeridian, milli-minutes, clamped altitude, time of day) is accepted by parseB.", "5/C19"),
+ "C20": ("proof", "Over the reals: distanceFromSegmentSquared is the true squared point-segment distance (minimum over the segment, attained at the clamped projection); dpWorker's loop invariant (chain of pending index pairs on the explicit stack, all marked, no mark strictly inside a pending pair, everything right of the top pair finished) yields on exit: first and last point marked, marks are 0/1, and for any two consecutive marks u<v every point between them is within threshold of segment (u,v); SimplifyFlatCoords returns strictly increasing in-range indices starting at 0 and ending at n-1, identity for n<3; all index/slice arithmetic in range.", "5/C20"),
  "C16": ("proof", "Clone of every cloneable type returns field-by-field and element-by-element equal values whose backing arrays (flatCoords, ends, the endss spine and every row, min, max) are allocated inside the call and pairwise distinct; nil vs empty preserved.", "5/C16"),
 }
 NOTE = "ints mathematical; float64 per the function's numeric model (opaque bit patterns or exact reals, echoed in the evidence); append/copy/make per language spec; non-nil receivers; immutable package-level variables; trusted stdlib contracts listed in evidence.trusted_base"
